@@ -656,26 +656,29 @@ func box(maxViews uint8) []setting {
 	return l
 }
 
-type tierBounds struct{ full, prefix, json int }
+type tierBounds struct {
+	full, prefix, json int
+	seeds              []int64
+}
 
 func bounds() tierBounds {
 	if common.Tier() == "thorough" {
-		return tierBounds{300_000, 50_000, 300_000}
+		return tierBounds{2_000_000, 200_000, 300_000, []int64{1, -7, 1 << 40, 0, 42, -1 << 62}}
 	}
-	return tierBounds{300_000, 50_000, 20_000}
+	return tierBounds{300_000, 50_000, 20_000, []int64{1, -7, 1 << 40}}
 }
 
-// TestC18GeneratorBox: every setting of the box, unshuffled and shuffled with three fixed seeds.
+// TestC18GeneratorBox: every setting of the box, unshuffled and shuffled with fixed seeds.
 func TestC18GeneratorBox(t *testing.T) {
 	b := bounds()
 	common.Get(c18).Note("TestC18GeneratorBox", map[string]any{"box": "nodes 1..5, twins 0..min(2,nodes), partitions 1..3, views 1..4",
-		"drained_completely_up_to": b.full, "prefix_otherwise": b.prefix, "json_round_trips_per_case_about": b.json, "shuffle_seeds": []int64{1, -7, 1 << 40}})
+		"drained_completely_up_to": b.full, "prefix_otherwise": b.prefix, "json_round_trips_per_case_about": b.json, "shuffle_seeds": b.seeds})
 	common.Exhaustive(t, c18, "TestC18GeneratorBox", func(yield func(genCase) bool) {
 		for _, s := range box(4) {
 			if !yield(genCase{s.n, s.t, s.p, s.v, false, 0, b.full, b.prefix, b.json}) {
 				return
 			}
-			for _, seed := range []int64{1, -7, 1 << 40} {
+			for _, seed := range b.seeds {
 				if !yield(genCase{s.n, s.t, s.p, s.v, true, seed, b.full, b.prefix, 0}) {
 					return
 				}
@@ -849,12 +852,12 @@ func allLogs(maxLen int) [][]int {
 }
 
 // TestC18VerdictExhaustive: all commit-log combinations of 1..3 replicas with logs of length <= 3 and of 4 replicas
-// with logs of length <= 2 over two blocks per position, every twin mask; a twin's second node holds the "other" log.
+// with logs of length <= 2 (quick) / <= 3 (thorough) over two blocks per position, every twin mask; a twin's second node holds the "other" log.
 func TestC18VerdictExhaustive(t *testing.T) {
 	common.Exhaustive(t, c18, "TestC18VerdictExhaustive", func(yield func(commitCase) bool) {
 		for r := 1; r <= 4; r++ {
 			maxLen := 3
-			if r == 4 {
+			if r == 4 && common.Tier() != "thorough" {
 				maxLen = 2
 			}
 			logs := allLogs(maxLen)
@@ -1025,7 +1028,7 @@ func TestC18ExecutorReport(t *testing.T) {
 			Views:      uint8(rapid.IntRange(4, 8).Draw(rt, "views")),
 			Seed:       rapid.Int64().Draw(rt, "seed"),
 			Skip:       rapid.IntRange(0, 20).Draw(rt, "skip"),
-			Rules:      rapid.SampledFrom([]string{rules.NameChainedHotStuff, rules.NameFastHotStuff, rules.NameSimpleHotStuff}).Draw(rt, "rules"),
+			Rules:      rapid.SampledFrom([]string{rules.NameChainedHotStuff, rules.NameChainedHotStuff, rules.NameSimpleHotStuff, rules.NameFastHotStuff}).Draw(rt, "rules"),
 		}
 	}, execProp)
 }
